@@ -624,7 +624,8 @@ const c08Rule = "four generated families. (Schnorr) every registry group with a 
 	"(canonicity) 32-byte strings near p, near k*L, the small-order points and their non-canonical encodings, top-byte patterns, random: scalar/point IsCanonical and HasSmallOrder vs integer comparison / the Edwards model. " +
 	"(EdDSA) any 32-byte seed: public key and signature byte-identical to crypto/ed25519, deterministic, key round trip, accepted by eddsa.Verify and schnorr.Verify; one adversarial triple from {message, sig/pub bit flips, s+L, s+kL, R/A + torsion point, small-order A with s=r, small-order R, non-canonical R/A, other key, zero s}: kyber accepts => crypto/ed25519 accepts, and the listed malleability classes are rejected. " +
 	"(ring) suites Ed25519/P-256/BN256-G1/Edwards-vartime, ring size 1..8, every signer index, linkable or not: honest verifies and returns x*H(scope); message/ring member/ring order/ring size/scope/any signature bit flip/truncation => error; tags equal for same key+scope across messages and rings, different for other key or scope. " +
-	"non-trivial = a semantically different mutation, a boundary canonicity string, any EdDSA adversarial triple, a ring case with a negative mutation or signer index != 0 or a linkage comparison; distinct = distinct rendered case"
+	"non-trivial = a semantically different mutation, a boundary canonicity string, any EdDSA adversarial triple, a ring case with a negative mutation or signer index != 0 or a linkage comparison; distinct = distinct rendered case" +
+	" Added after the sensitivity rounds: canonicity inputs agreeing with L (or p) above every byte position and differing at it; an EdDSA object re-keyed after signing vs crypto/ed25519; for linkable ring signatures the tag of sig||extra equals the tag of sig and survives the caller overwriting the buffer; secrets whose public key has order dividing 8 on full-group curves are excluded."
 
 func TestC08_Schnorr(t *testing.T) {
 	ev := evFor("C08")
